@@ -113,8 +113,14 @@ def apply_rule(rule, doc, src, q):
     elif kind == 'sens_invalid_host_negative':
         SH['(1, -1)'] = 10
     elif kind == 'sens_duplicate':
-        k = _first(SH)
-        SH[k.replace(', ', ',') if ', ' in k else k.replace(',', ', ')] = SH[k]
+        # the same address spelled differently (the only way a YAML mapping can repeat a key)
+        keys = list(SH)
+        k = keys[int(arg[0])] if arg and int(arg[0]) < len(keys) else keys[-1]
+        a = eval(k)
+        spelling = {'a': '(%d,%d)', 'b': '( %d, %d)', 'c': '(%d,  %d)', 'd': '(%d, %d )'}[arg[1] if arg else 'a'] % a
+        if spelling == k:
+            spelling = '(%d , %d)' % a
+        SH[spelling] = SH[k]
     elif kind == 'sens_nonpositive_value':
         SH[_first(SH)] = _nonpos_num(src, 'bad_value', q)
     elif kind == 'sens_nonnumeric_value':
@@ -188,7 +194,14 @@ def apply_rule(rule, doc, src, q):
             sx.assume(z3.Or(d >= 1, d <= -1))
         HC[hk][u.HOST_VALUE] = v
     elif kind == 'fw_missing_rule':
-        del FW[_first(FW)]
+        keys = list(FW)
+        if arg == 'reverse':
+            k = [x for x in keys if eval(x)[0] > eval(x)[1]][0]
+        elif arg == 'last':
+            k = keys[-1]
+        else:
+            k = keys[0]
+        del FW[k]
     elif kind == 'fw_not_list':
         FW[_first(FW)] = services[0]
     elif kind == 'fw_duplicate_service':
@@ -215,7 +228,8 @@ def catalogue():
     rules += ['empty_list:' + k for k in (u.OS, u.SERVICES, u.PROCESSES)]
     rules += ['duplicate_in_list:' + k for k in (u.OS, u.SERVICES, u.PROCESSES)]
     rules += ['sens_invalid_subnet_zero', 'sens_invalid_subnet_high', 'sens_invalid_host_high',
-              'sens_invalid_host_negative', 'sens_duplicate', 'sens_nonnumeric_value']
+              'sens_invalid_host_negative', 'sens_nonnumeric_value']
+    rules += ['sens_duplicate:%d%s' % (i, sp) for i in (0, 1) for sp in 'abcd']
     rules += ['exploit_missing_field:' + k for k in (u.EXPLOIT_SERVICE, u.EXPLOIT_OS, u.EXPLOIT_PROB, u.EXPLOIT_COST, u.EXPLOIT_ACCESS)]
     rules += ['exploit_unknown_service', 'exploit_unknown_os'] + ['exploit_invalid_access:' + a for a in ('admin', '0', '3')]
     rules += ['privesc_missing_field:' + k for k in (u.PRIVESC_PROCESS, u.PRIVESC_OS, u.PRIVESC_PROB, u.PRIVESC_COST, u.PRIVESC_ACCESS)]
@@ -226,7 +240,8 @@ def catalogue():
               'host_fw_not_list', 'host_value_nonnumeric']
     rules += ['host_missing_key:' + k for k in (u.HOST_OS, u.HOST_SERVICES, u.HOST_PROCESSES)]
     rules += ['host_fw_bad_address:' + a for a in ('far', 'text', 'neg', 'inet')]
-    rules += ['fw_missing_rule', 'fw_not_list', 'fw_duplicate_service', 'fw_unknown_service']
+    rules += ['fw_missing_rule:first', 'fw_missing_rule:reverse', 'fw_missing_rule:last', 'fw_not_list',
+              'fw_duplicate_service', 'fw_unknown_service']
     return rules + NUMERIC
 
 
@@ -238,7 +253,8 @@ def queries(tier, seed=0):
             for nt in (('float', 'int') if rule in NUMERIC else ('float',)):
                 qs.append(dict(kind='skel', skel=sk, numtype=nt, sym=[], picks=[], rule=rule))
         files = list(AVAIL_STATIC_BENCHMARKS) if tier != 'quick' else \
-            (['tiny', 'small-honeypot', 'medium-multi-site'] if rule in NUMERIC else [])
+            (['tiny', 'small-honeypot', 'medium-multi-site'] if rule in NUMERIC else
+             (['tiny', 'medium-single-site'] if rule.startswith(('sens_duplicate', 'fw_missing_rule')) else []))
         for f in files:
             qs.append(dict(kind='shipped', file=f, numtype='float', rule=rule))
     return qs
